@@ -4,3 +4,4 @@ open Fzf.Props.C16
 #print axioms C16_reject_is_final
 #print axioms C16_post_body_exact
 #print axioms C16_content_length_bounded
+#print axioms C16_get_never_acts
